@@ -17,6 +17,9 @@ pub struct Dict {
     /// string literals anywhere under src/ that look like names of environment variables
     /// (`[A-Z][A-Z0-9_]{2,}`), plus the usual ambient ones: whether they are set is not input
     pub env: Vec<String>,
+    /// lower-case word literals of src/metadata.rs: the metadata keys the library knows about
+    /// (a change that teaches it a new key writes that key into the source)
+    pub meta_keys: Vec<String>,
 }
 
 static DICT: OnceLock<Dict> = OnceLock::new();
@@ -210,5 +213,20 @@ pub fn build(repo: &str) -> Dict {
     }
     env.sort();
     env.dedup();
-    Dict { aisle, recipe, units, env }
+    let mut meta_keys: Vec<String> = Vec::new();
+    if let Ok(t) = std::fs::read_to_string(format!("{repo}/src/metadata.rs")) {
+        // (test modules excluded: what follows `#[cfg(test)]` is not the library)
+        let t = t.split("#[cfg(test)]").next().unwrap_or("");
+        let mut it = t.split('"');
+        it.next();
+        while let (Some(lit), Some(_)) = (it.next(), it.next()) {
+            let ok = lit.len() >= 3 && lit.len() <= 24 && lit.starts_with(|c: char| c.is_ascii_lowercase()) && lit.chars().all(|c| c.is_ascii_lowercase() || c == ' ' || c == '_' || c == '-') && !lit.ends_with(' ');
+            if ok && meta_keys.len() < 64 {
+                meta_keys.push(lit.to_string());
+            }
+        }
+    }
+    meta_keys.sort();
+    meta_keys.dedup();
+    Dict { aisle, recipe, units, env, meta_keys }
 }
